@@ -178,6 +178,29 @@ public:
 private:
 	const char *_txt;
 };
+/* source that offers a span of a longer buffer as character vector (and the rest of the buffer as text) */
+class vec_src : public mpt::convertable
+{
+public:
+	vec_src(char *b, size_t l) : _base(b), _len(l) { }
+	int convert(mpt::type_t type, void *ptr) __MPT_OVERRIDE
+	{
+		using namespace mpt;        /* the type macros name the enumerators unqualified */
+		if (type == MPT_type_toVector('c')) {
+			struct iovec *vec = static_cast<struct iovec *>(ptr);
+			if (vec) { vec->iov_base = _base; vec->iov_len = _len; }
+			return 's';
+		}
+		if (type == 's') {
+			if (ptr) *static_cast<const char **>(ptr) = _base;
+			return 's';
+		}
+		return mpt::BadType;
+	}
+private:
+	char *_base;
+	size_t _len;
+};
 static int set_by_property(struct lobj *l, const char *name, const char *text, int reset)
 {
 	mpt::identifier id;
@@ -226,6 +249,20 @@ static int do_set(struct lobj *l, const char *name, const struct cmd *c)
 		render_num(b, sizeof(b), twice(n + 2), "dec");
 		snprintf(buf, sizeof(buf), "%s %s", a, b);
 		rc = l->o->set(name, buf, 0) ? 0 : -1;
+	}
+	else if (!strcmp(f, "vec") && nn >= 2) {
+		char *body = arg_rle(c, "c");
+		size_t bl = strlen(body), pre = (size_t) n[0], post = (size_t) n[1];
+		char *buf = (char *) malloc(pre + bl + post + 1);
+		memset(buf, 'P', pre);
+		memcpy(buf + pre, body, bl);
+		memset(buf + pre + bl, 'S', post);
+		buf[pre + bl + post] = 0;
+		vec_src src(buf + pre, bl);
+		rc = l->o->set_property(name, &src);
+		memset(buf, 'Q', pre + bl + post);
+		free(buf);
+		free(body);
 	}
 	else if (!strcmp(f, "txt") || !strcmp(f, "s")) {
 		char *t = arg_text(c, "c");
